@@ -325,6 +325,69 @@ def sector_hist_chunk(hs):
     return {'n': n, 'bad': bad, 'solver_s': D.solver_s, 'queries': D.queries}
 
 
+# ---- the string constructor: Equation(lhs, rhs=<expression text>) then terms added ---------------------------------------------------------------
+
+CTOR_LEADS = ['(x)*(y)', '(a)/(b)', 'x*y', '(a+b)', 'a+b*x', '-x', '(-x)*y', '((a))', '(a+b)*(x-y)', 'x*(y)', '-(x)*(y)', '2*x', 'a*b - 1']
+CTOR_TERMS = ['y', '-x', 'x*y', '2']
+
+
+def ctor_cases(tier):
+    return [(lead, ts) for lead in CTOR_LEADS for n in (0, 1, 2) for ts in itertools.product(CTOR_TERMS, repeat=n)]
+
+
+def ctor_chunk(cases):
+    bad = []
+    n = 0
+    env = lambda nme: z3.Real('X_' + nme)
+    D = Decider()
+    for lead, ts in cases:
+        try:
+            eq = Equation('z', '', lead)
+            for t in ts:
+                eq.AddTerm(t)
+            rhs = eq.RHS()
+        except (LogicError, SyntaxError, NotImplementedError) as e:
+            continue            # a documented refusal
+        except Exception as e:
+            bad.append((lead, ts, 'raises %r' % (e,)))
+            continue
+        n += 1
+        try:
+            got = to_z3(rhs, env)
+            want = to_z3(lead, env)
+            for t in ts:
+                want = want + to_z3(t, env)
+        except Untranslatable as e:
+            bad.append((lead, ts, 'rendering %r does not parse: %s' % (rhs, e)))
+            continue
+        if not z3.eq(z3.simplify(got - want), z3.RealVal(0)):
+            r, mdl = D.decide([got != want, env('b') != 0, env('y') != 0, env('x') != 0], ladder=False, timeout_ms=10000)
+            if r == 'sat':
+                bad.append((lead, ts, 'renders %r, which is not the leading expression plus the added terms' % (rhs,)))
+            elif r != 'unsat':
+                bad.append((lead, ts, 'unknown'))
+    return {'n': n, 'bad': bad, 'solver_s': D.solver_s, 'queries': D.queries}
+
+
+REPLAY_CTOR = """
+import sys, random
+from sfc_models.equation import Equation
+lead, ts = %(case)r
+try:
+    eq = Equation('z', '', lead)
+    for t in ts: eq.AddTerm(t)
+    rhs = eq.RHS()
+except Exception as e:
+    print('Equation(%%r) + %%r raises %%r' %% (lead, ts, e)); sys.exit(1)
+print('Equation(%%r) + %%r renders %%r' %% (lead, ts, rhs))
+rnd = random.Random(11); bad = False
+for i in range(5):
+    env = {n: rnd.uniform(0.5, 3.0) for n in 'xyab'}
+    got = eval(rhs, {}, env); want = eval('(%%s)' %% lead, {}, env) + sum(eval('(%%s)' %% t, {}, env) for t in ts)
+    if abs(got - want) > 1e-9 * (1 + abs(got) + abs(want)): print('at', env, 'renders', got, 'expected', want); bad = True; break
+sys.exit(1 if bad else 0)
+"""
+
 # ---- cash flows: Sector.AddCashFlow feeds the F and (income flows) the INC equation of a sector ------------------------------------
 
 CASH_TERMS = ['x', '+x', '-x', '(x)', '-(x)', '(-x)', '+(-x)', '-(-x)', ' - ( - x )', '( -x)', 'y', '-y']
@@ -562,6 +625,21 @@ def run(tier, seed):
                 continue
             chk.violation('sector-history:%s' % ('restated-then-same-term' if any(o == 'R' for o, _ in h) else str(h))[:80], 'history %r: %s' % (h, why), REPLAY_SECTOR % dict(h=h))
     chk.distinct |= {('sec', i) for i in range(len(shs))}
+    ccs = ctor_cases(tier)
+    chk.bounds['string constructor'] = '%d cases: Equation(lhs, rhs=text) for the texts %r, then <= 2 of the terms %r added: the rendering equals the text plus the terms' % (len(ccs), CTOR_LEADS, CTOR_TERMS)
+    for st, r in pmap(ctor_chunk, [ccs[i::8] for i in range(8)]):
+        if st != 'ok':
+            chk.harness_errors.append(r[:800])
+            continue
+        chk.solver_s += r['solver_s']; chk.queries += r['queries']
+        chk.obligations += r['n'] + len([b for b in r['bad'] if b[2].startswith('raises')])
+        chk.discharged += r['n'] - len([b for b in r['bad'] if not b[2].startswith('raises')])
+        for lead, ts, why in r['bad']:
+            if why == 'unknown':
+                chk.inconclusive += 1
+                continue
+            chk.violation('string-constructor:%s' % lead, 'Equation(%r) then %r: %s' % (lead, ts, why), REPLAY_CTOR % dict(case=(lead, ts)))
+    chk.distinct |= {('ctor', i) for i in range(len(ccs))}
     chs = cash_histories(tier)
     chk.bounds['Sector cash-flow histories'] = ('%d histories of <= 3 calls of Sector.AddCashFlow (income / not income) over the spellings %r: F renders LAG_F plus the signed sum, INC '
                                                 'the signed sum of the income flows' % (len(chs), CASH_TERMS))
